@@ -136,6 +136,28 @@ def startOp (_s : St) (op : String) : Option PC :=
   | ["close"] => some .pc0
   | _ => none
 
+def kidx : Kind → Nat
+  | .s0 => 0
+  | .s1 => 1
+  | .s2 => 2
+  | .ic => 3
+  | .pc0 => 4
+  | .pc1 => 5
+  | .qc1 => 6
+  | .qc2 => 7
+  | .w0 => 8
+  | .w1 => 9
+  | .w2 => 10
+  | .w3 => 11
+  | .w4 => 12
+def allKinds : List Kind := [.s0, .s1, .s2, .ic, .pc0, .pc1, .qc1, .qc2, .w0, .w1, .w2, .w3, .w4]
+/-- the same state with the counter function re-tabulated (see `compact_eq`) -/
+def compact (s : St) : St := { s with cnt := let t := allKinds.map s.cnt; fun k => tblGet t (kidx k) }
+theorem compact_eq (s : St) : compact s = s := by
+  have : (let t := allKinds.map s.cnt; fun k => tblGet t (kidx k)) = s.cnt := by
+    funext k; cases k <;> rfl
+  simp only [compact, this]
+
 def ops : Ops St PC where
   gstep := fun s pc _ => gstep s pc false       -- the executor never lets the expiry timer fire
   spawn := spawn
@@ -143,6 +165,7 @@ def ops : Ops St PC where
   startOp := startOp
   openGate := fun s => { s with gate := true }
   summary := fun s => s!"late={s.late} np={s.np}"
+  compact := compact
 
 def exec0 (cap : Nat) (qclose : Bool) : Exec St PC :=
   { sh := init cap qclose true, ths := [{ name := "W", pc := some .w0, internal := true }] }
